@@ -171,7 +171,7 @@ def gen_step(draw, cur, target, fail):
             return ['bin', '+', ['s', 'x']]
         if k == 3:
             return ['bin', '*', ['i', 2]] if len(cur) < 20 else ['[', ['slice', [0, 2, None]]]
-        return ['[', ['slice', [draw(S([None, 0, 1, -1])), draw(S([None, 2, -1])), draw(S([None, 1, 2, -1]))]]]
+        return ['[', ['slice', [draw(S([None, 0, 1, -1])), draw(S([None, 2, -1, 0])), draw(S([None, 1, 2, -1]))]]]
     if isinstance(cur, (list, tuple)):
         k = draw(st.integers(0, 6))
         if k <= 1 and len(cur):
@@ -180,7 +180,7 @@ def gen_step(draw, cur, target, fail):
                 return ['[', ['T', 'T', [['[', ['s', 'd']], ['[', ['s', 'k']]]]]
             return ['[', ['i', i]]
         if k == 2:
-            return ['[', ['slice', [draw(S([None, 0, 1, -2])), draw(S([None, 1, 3, -1])), draw(S([None, 1, 2, -1]))]]]
+            return ['[', ['slice', [draw(S([None, 0, 1, -2])), draw(S([None, 1, 3, -1, 0])), draw(S([None, 1, 2, -1, -2]))]]]
         if k == 3:
             return ['.', 'count']
         if k == 4 and len(cur) < 40:
